@@ -61,6 +61,12 @@ type refProg struct {
 
 func always(map[string]*val.Val) bool { return true }
 
+// keysApart: a and b finite and identical (IEEE ==) or more than 1 apart
+func keysApart(v map[string]*val.Val) bool {
+	a, b := rNum(v, "a"), rNum(v, "b")
+	return sv.And(a-a == 0, b-b == 0, sv.Or(a == b, a-b > 1, b-a > 1))
+}
+
 var nn = []*types.Type{tNum, tNum}
 var ab = []string{"a", "b"}
 
@@ -186,6 +192,22 @@ var refProgs = []refProg{
 		ti := math.Trunc(i)
 		return sv.And(i == i, ti >= 0, ti < float64(len(rList(v, "xs"))))
 	}, func(v map[string]*val.Val) refResult { return rn(rList(v, "xs")[sv.ConcreteInt(int(math.Trunc(rNum(v, "i"))), 0, 4)]) }},
+	// numbers as map keys: the same number (IEEE ==, so 0 and -0) selects the
+	// same entry and is rendered like the number itself; keys are identical
+	// or clearly apart (the tolerance window is C18's subject)
+	{totalProg{"isset([a: 1], b)", ab, nn}, keysApart, func(v map[string]*val.Val) refResult { return rb(rNum(v, "a") == rNum(v, "b")) }},
+	{totalProg{"get([a: 1], b, 2)", ab, nn}, keysApart, func(v map[string]*val.Val) refResult { return rn(sv.IteF(rNum(v, "a") == rNum(v, "b"), 1, 2)) }},
+	{totalProg{"len([a: 1, b: 2])", ab, nn}, keysApart, func(v map[string]*val.Val) refResult { return rn(sv.IteF(rNum(v, "a") == rNum(v, "b"), 1, 2)) }},
+	{totalProg{"string([a: 1])", []string{"a"}, []*types.Type{tNum}}, func(v map[string]*val.Val) bool { return rNum(v, "a") == rNum(v, "a") },
+		func(v map[string]*val.Val) refResult { return rs("[" + refNumString(rNum(v, "a")) + ": 1]") }},
+	{totalProg{"[a: 1] == [b: 1]", ab, nn}, keysApart, func(v map[string]*val.Val) refResult { return rb(rNum(v, "a") == rNum(v, "b")) }},
+	// the tolerance applies element by element inside composite values
+	numBin("[a] == [b]", func(a, b float64) refResult { return rb(refEQ(a, b)) }),
+	// (!= on composite values is the negation of ==; for NaN elements that differs from the scalar !=, which no statement settles)
+	numBin("[a] != [b]", func(a, b float64) refResult { return rb(!refEQ(a, b)) }),
+	numBin("[\"k\": a] == [\"k\": b]", func(a, b float64) refResult { return rb(refEQ(a, b)) }),
+	numBin("[[a], [a]] == [[b], [b]]", func(a, b float64) refResult { return rb(refEQ(a, b)) }),
+	numBin("[{v: a}] != [{v: b}]", func(a, b float64) refResult { return rb(!refEQ(a, b)) }),
 	{totalProg{"p.a", []string{"p"}, []*types.Type{TObjAB}}, always, func(v map[string]*val.Val) refResult {
 		x, _ := v["p"].Obj().Get("a")
 		return rn(x.Num().V)
